@@ -49,6 +49,7 @@ type verdict struct {
 	Note   string
 	Status string   // ok | trivial | rejected | unjudged:<why> | foreign:<prop> | discrepancy
 	Class  string   // discrepancy class
+	Sub    string   // narrower cause, part of the signature when set
 	Props  []string // properties whose statement the discrepancy contradicts
 	Msg    string
 
@@ -558,6 +559,19 @@ func evalModel(cs *modelCase) *verdict {
 					v.Class = "error-instead-of-rewrite"
 					v.Props = []string{"C01", "C03"}
 					v.Msg = fmt.Sprintf("the reference finds %d admissible site(s) and its result is valid Go, but Apply fails: %s", len(res.Sites), r.ApplyErr)
+					// Narrower cause: without the comments of the file the
+					// same change goes through and gives the expected result,
+					// so it is a comment that the printer put where no
+					// comment may stand.
+					if bare := blankComments(cs.Host); bare != cs.Host {
+						r2 := run.API("p.patch", []byte(cs.Patch), "host.go", []byte(bare))
+						if r2.OK() {
+							if gt, err := parseTree(r2.Out); err == nil && ref.Equal(ref.StripImports(exp), ref.StripImports(gt), ref.Output) {
+								v.Sub = "comment-displaced-by-new-code"
+								v.Msg += "\n(without the file's comments the change is applied as expected)"
+							}
+						}
+					}
 					return v
 				}
 			}
@@ -867,7 +881,35 @@ func (mc *modelCheck) judge(ft fataler, c *evid.Collector, cs *modelCase) {
 
 // modelSig adds detail to the signature used for known findings.
 func modelSig(cs *modelCase, v *verdict) string {
+	if v.Sub != "" {
+		return string(v.Kind) + ":" + v.Sub
+	}
 	return string(v.Kind)
+}
+
+// blankComments overwrites every comment of a Go file with spaces, keeping
+// line breaks, so that all code stays at its position.
+func blankComments(src string) string {
+	fset := token.NewFileSet()
+	f, err := parser.ParseFile(fset, "host.go", src, parser.ParseComments)
+	if err != nil {
+		return src
+	}
+	b := []byte(src)
+	tf := fset.File(f.Pos())
+	for _, cg := range f.Comments {
+		for _, c := range cg.List {
+			if strings.HasPrefix(c.Text, "//go:") || strings.HasPrefix(c.Text, "// +build") {
+				continue
+			}
+			for i := tf.Offset(c.Pos()); i < tf.Offset(c.End()) && i < len(b); i++ {
+				if b[i] != '\n' && b[i] != '\r' {
+					b[i] = ' '
+				}
+			}
+		}
+	}
+	return string(b)
 }
 
 func (mc *modelCheck) replay(t *testing.T) {
